@@ -215,6 +215,7 @@ class StubDB:
         self.target_list = []
         self.next_id = 1
         self.next_calls = 0
+        self.issued = []
         self.version_tables = ({}, {}, {}, {})
 
     def install(self):
@@ -241,4 +242,5 @@ class StubDB:
     def _next(self):
         self.next_calls += 1
         self.next_id += 1
+        self.issued.append(self.next_id - 1)
         return self.next_id - 1
